@@ -1,6 +1,6 @@
 (* C17 — Output exclusivity and dependency graph consistent for any registration history.
    Statements only. *)
-From Verif Require Import DepDB DepDBProofs.
+From Verif Require Import DepDB DepDBProofs DepDBLookup.
 Open Scope N_scope.
 
 (* for every history of database operations: at most one exclusive owner per type, exclusive and
@@ -52,3 +52,15 @@ Example C17_nonvacuous :
                        DbAddIn 1 (mkIn 5 6 None 1); DbAddIn 2 (mkIn 5 6 (Some 9) 1)] db_empty in
   d_excl d = [(7, 1)] /\ d_shared d = [] /\ get_dependents 5 6 9 d = [1; 2] /\ get_dependents 5 6 8 d = [1].
 Proof. vm_compute. repeat split. Qed.
+
+(* change notifications go to exactly the controllers with a matching input: after any history of database operations
+   (accepted or rejected; inputs given by id carry a non-empty id) a controller is among the dependents of a resource
+   iff one of its stored inputs matches the resource by kind or by that id *)
+Theorem C17_lookup_exact : forall ops,
+  Forall op_wf ops ->
+  let d := run_db_ops ops db_empty in
+  forall name ns typ id,
+    In name (get_dependents ns typ id d) <->
+    exists i, In i (inputs_of name d) /\ i_ns i = ns /\ i_typ i = typ /\ (i_id i = None \/ i_id i = Some id).
+Proof. exact lookup_exact. Qed.
+Print Assumptions C17_lookup_exact.
